@@ -484,9 +484,20 @@ func frames(r *rand.Rand) []byte {
 	var out []byte
 	for i := 0; i < 1+r.IntN(6); i++ {
 		f := refframe.Default([4]byte{1, 2, 3, 4}, [4]byte{255, 255, 255, 255}, 67, 68, gen4.Bytes(r, r.IntN(40)))
+		// the header octets a reader has no business with, as any sender may set them
+		if r.IntN(2) == 0 {
+			f.TOS = []byte{0, 20, 0x10, 0xb8, 0xff, byte(r.UintN(256))}[r.IntN(6)]
+			f.ID = uint16(r.UintN(65536))
+			f.TTL = []byte{1, 64, 255, 0, 128}[r.IntN(5)]
+		}
+		if r.IntN(4) == 0 { // IP options of the kinds that exist, with lengths that fit and lengths that do not
+			f.IHL = 6 + r.IntN(10)
+			f.Options = refframe.IPOptions(r.IntN, f.IHL*4-20)
+		}
 		switch r.IntN(8) {
 		case 0:
 			f.IHL = 5 + r.IntN(11)
+			f.Options = nil
 		case 1:
 			f.TotalLen = r.IntN(80)
 			f.Pad = r.IntN(20)
